@@ -14,7 +14,7 @@ def describe(part):
     d["first"], d["last"] = (int(pts[0].t), int(pts[-1].t)) if len(pts) else (0, 0)
     d["ts"] = sorted(((int(o.start.t), int(o.beats), int(o.beat_type), int(o.musical_beats)) for o in objects_of(part, S.TimeSignature)))
     d["ks"] = sorted(((int(o.start.t), int(o.fifths), -1 if o.mode in ("minor", -1) else 1) for o in objects_of(part, S.KeySignature)))
-    d["clefs"] = sorted(((int(o.start.t), int(o.staff), CLEF_CODES[o.sign], int(o.line), int(o.octave_change or 0))
+    d["clefs"] = sorted(((int(o.start.t), int(o.staff), CLEF_CODES[o.sign], int(o.line or 0), int(o.octave_change or 0))
                          for o in objects_of(part, S.Clef)))
     ms = objects_of(part, S.Measure)
     d["measures"] = sorted(((int(m.start.t), int(m.end.t), m.number) for m in ms if m.end is not None))
